@@ -81,6 +81,15 @@ impl TIn {
     pub fn scalar_i64(name: &str, v: i64) -> TIn {
         TIn::ints(name, dtype::INT64, &[], &[v])
     }
+    /// Make float data strictly positive (for Log/Sqrt-like reductions, variances).
+    pub fn positive(mut self) -> TIn {
+        if let Data::F(v) = &mut self.data {
+            for x in v.iter_mut() {
+                *x = x.abs() + 0.5;
+            }
+        }
+        self
+    }
     pub fn as_init(mut self) -> TIn {
         self.init = true;
         self
@@ -292,6 +301,109 @@ fn variants(c: &Case) -> (Vec<Variant>, bool) {
         }
     }
     (out, full)
+}
+
+/// Encode a graph as ModelProto bytes. Same layout as `vp_onnx::Graph::to_model_bytes`,
+/// except that repeated `ints` / `floats` attribute fields are written UNPACKED
+/// (one tag per element): rten's AttributeProto decoder rejects the packed form
+/// that vp-onnx emits ("field type mismatch").
+fn model_bytes_unpacked(g: &Graph, opset: i64) -> Vec<u8> {
+    use vp_onnx::pb::Msg;
+    fn node_msg(n: &Node) -> Msg {
+        let mut m = Msg::new();
+        for i in &n.inputs {
+            m.string(1, i);
+        }
+        for o in &n.outputs {
+            m.string(2, o);
+        }
+        if !n.name.is_empty() {
+            m.string(3, &n.name);
+        }
+        m.string(4, &n.op_type);
+        for (name, a) in &n.attrs {
+            let mut am = Msg::new();
+            am.string(1, name);
+            match a {
+                Attr::Int(i) => {
+                    am.varint(3, *i as u64);
+                    am.varint(20, 2);
+                }
+                Attr::Float(f) => {
+                    am.fixed32(2, f.to_bits());
+                    am.varint(20, 1);
+                }
+                Attr::Str(s) => {
+                    am.bytes(4, s.as_bytes());
+                    am.varint(20, 3);
+                }
+                Attr::Ints(v) => {
+                    for x in v {
+                        am.varint(8, *x as u64);
+                    }
+                    am.varint(20, 7);
+                }
+                Attr::Floats(v) => {
+                    for x in v {
+                        am.fixed32(7, x.to_bits());
+                    }
+                    am.varint(20, 6);
+                }
+                Attr::Strs(v) => {
+                    for s in v {
+                        am.bytes(9, s.as_bytes());
+                    }
+                    am.varint(20, 8);
+                }
+                Attr::Tensor(t) => {
+                    am.msg(5, &t.encode());
+                    am.varint(20, 4);
+                }
+                Attr::Graph(sub) => {
+                    am.msg(6, &graph_msg(sub));
+                    am.varint(20, 5);
+                }
+            }
+            m.msg(5, &am);
+        }
+        if !n.domain.is_empty() {
+            m.string(7, &n.domain);
+        }
+        m
+    }
+    fn graph_msg(g: &Graph) -> Msg {
+        let mut m = Msg::new();
+        for n in &g.nodes {
+            m.msg(1, &node_msg(n));
+        }
+        m.string(2, &g.name);
+        for t in &g.initializers {
+            m.msg(5, &t.encode());
+        }
+        for v in &g.inputs {
+            m.msg(11, &v.encode());
+        }
+        for v in &g.outputs {
+            m.msg(12, &v.encode());
+        }
+        for v in &g.value_infos {
+            m.msg(13, &v.encode());
+        }
+        m
+    }
+    let mut m = Msg::new();
+    m.varint(1, 8);
+    m.string(2, "mc-shape");
+    m.msg(7, &graph_msg(g));
+    let mut os = Msg::new();
+    os.string(1, "");
+    os.varint(2, opset as u64);
+    m.msg(8, &os);
+    let mut ms = Msg::new();
+    ms.string(1, "com.microsoft");
+    ms.varint(2, 1);
+    m.msg(8, &ms);
+    m.into_bytes()
 }
 
 /// Build the ONNX graph of a variant and the symbol environment it implies.
@@ -547,13 +659,13 @@ fn compare(inf: &Inferred, act: &Actual, env: &[(String, i64)], st: &mut Stats) 
             };
             if act.shape.len() != rank {
                 return Some(Contradiction {
-                    kind: "inferred constant has a different rank than the executed value",
+                    kind: "inferred constant has a different rank/length than the executed value",
                     detail: format!("inferred {c:?} (rank {rank}), executed shape {:?} values {:?}", act.shape, act.values),
                 });
             }
             if rank == 1 && act.shape[0] != vals.len() {
                 return Some(Contradiction {
-                    kind: "inferred constant vector has a different length than the executed value",
+                    kind: "inferred constant has a different rank/length than the executed value",
                     detail: format!("inferred {c:?}, executed shape {:?} values {:?}", act.shape, act.values),
                 });
             }
@@ -572,8 +684,8 @@ fn compare(inf: &Inferred, act: &Actual, env: &[(String, i64)], st: &mut Stats) 
             st.rank_claims += 1;
             if dims.len() != act.shape.len() {
                 return Some(Contradiction {
-                    kind: "inferred rank differs from the executed rank",
-                    detail: format!("inferred {}, executed shape {:?}", inferred_string(inf), act.shape),
+                    kind: "inferred shape contradicts the executed shape",
+                    detail: format!("rank: inferred {}, executed shape {:?}", inferred_string(inf), act.shape),
                 });
             }
             for (ax, d) in dims.iter().enumerate() {
@@ -582,8 +694,8 @@ fn compare(inf: &Inferred, act: &Actual, env: &[(String, i64)], st: &mut Stats) 
                         st.fixed_dim_claims += 1;
                         if *n != act.shape[ax] {
                             return Some(Contradiction {
-                                kind: "inferred fixed dim differs from the executed dim",
-                                detail: format!("axis {ax}: inferred {}, executed shape {:?}", inferred_string(inf), act.shape),
+                                kind: "inferred shape contradicts the executed shape",
+                                detail: format!("fixed dim, axis {ax}: inferred {}, executed shape {:?}", inferred_string(inf), act.shape),
                             });
                         }
                     }
@@ -605,9 +717,9 @@ fn compare(inf: &Inferred, act: &Actual, env: &[(String, i64)], st: &mut Stats) 
                                 }
                                 if !vals.iter().any(|v| *v == Ok(act.shape[ax] as i64)) {
                                     return Some(Contradiction {
-                                        kind: "inferred symbolic dim evaluates to a different size than the executed dim",
+                                        kind: "inferred shape contradicts the executed shape",
                                         detail: format!(
-                                            "axis {ax}: \"{s}\" = {:?} under {:?}; inferred {}, executed shape {:?}",
+                                            "symbolic dim, axis {ax}: \"{s}\" = {:?} under {:?}; inferred {}, executed shape {:?}",
                                             vals.iter().map(|v| v.clone().unwrap()).collect::<Vec<_>>(), env, inferred_string(inf), act.shape
                                         ),
                                     });
@@ -641,12 +753,15 @@ fn variant_json(c: &Case, v: &Variant) -> Json {
 fn check_variant(c: &Case, v: &Variant, acc: &mut EntryAcc, double_load: bool) -> bool {
     acc.stats.variants += 1;
     let (g, env) = build(c, v);
-    let bytes = g.to_model_bytes(c.opset);
+    let bytes = model_bytes_unpacked(&g, c.opset);
     let names = c.produced();
     let model = match load(bytes.clone()) {
         Ok(m) => m,
         Err(e) => {
             acc.stats.load_errors += 1;
+            if std::env::var("C10_ENTRY").is_ok() && acc.stats.load_errors <= 3 {
+                eprintln!("load error in entry {}: {}", c.entry, e);
+            }
             *acc.obs.entry(format!("load error in entry {}: {}", c.entry, vp_core::truncate(&e, 80))).or_insert(0) += 1;
             return false;
         }
@@ -681,6 +796,9 @@ fn check_variant(c: &Case, v: &Variant, acc: &mut EntryAcc, double_load: bool) -
                 *acc.obs.entry(format!("execution panicked in entry {}: {}", c.entry, vp_core::truncate(&e, 80))).or_insert(0) += 1;
             } else {
                 acc.stats.run_errors += 1;
+                if std::env::var("C10_ENTRY").is_ok() && acc.stats.run_errors <= 3 {
+                    eprintln!("run error in entry {}: {}", c.entry, e);
+                }
             }
             return false;
         }
@@ -701,7 +819,7 @@ fn check_variant(c: &Case, v: &Variant, acc: &mut EntryAcc, double_load: bool) -
                 Some(fop) if fop != op => "general",
                 _ => c.feature.as_str(),
             };
-            let sig = format!("{op}: {} [{}]", con.kind, feature);
+            let sig = format!("{}: {} [{}]", op_family(op), con.kind, feature);
             let detail = format!(
                 "entry {}; value {name} produced by {op}; {}; symbols {:?}; inputs {}",
                 c.entry,
@@ -726,6 +844,16 @@ fn check_variant(c: &Case, v: &Variant, acc: &mut EntryAcc, double_load: bool) -
         }));
     }
     true
+}
+
+/// Operators that share one shape-inference implementation report under one name.
+fn op_family(op: &str) -> &str {
+    match op {
+        "ReduceSum" | "ReduceMean" | "ReduceMax" | "ReduceMin" | "ReduceProd" | "ReduceL1" | "ReduceL2" | "ReduceLogSum"
+        | "ReduceLogSumExp" | "ReduceSumSquare" => "Reduce*",
+        "MaxPool" | "AveragePool" => "MaxPool/AveragePool",
+        o => o,
+    }
 }
 
 fn record(acc: &mut EntryAcc, sig: String, case: impl FnOnce() -> (Json, String)) {
@@ -802,7 +930,11 @@ pub fn run(ctx: Ctx) -> ! {
         finish(ctx, vec![("replay".into(), false, acc)], 1);
     }
 
-    let entries = c10_catalogue::entries(ctx.tier);
+    let mut entries = c10_catalogue::entries(ctx.tier);
+    // Development aid: C10_ENTRY=<substring> restricts the run to matching entries.
+    if let Ok(f) = std::env::var("C10_ENTRY") {
+        entries.retain(|e| e.name.contains(&f));
+    }
     let tier = ctx.tier;
     let n = entries.len();
     let accs = vp_core::par::map(n, |i| {
